@@ -99,3 +99,28 @@ pub(crate) fn on_assign<VR, F: Field>(col: usize, v: Value<VR>) -> Value<VR> {
         out
     })
 }
+
+// ---------------------------------------------------------------- entropy seam
+//
+// The prover draws the blinding of the quotient limbs from the operating
+// system, not from the caller's generator. Under the verification cfg a
+// harness can seed that draw per thread, so that a proof is a function of the
+// harness seed; unseeded threads keep using the operating system.
+
+use rand_chacha::ChaCha20Rng;
+use rand_core::{OsRng, RngCore, SeedableRng};
+
+thread_local! { static ENTROPY: RefCell<Option<ChaCha20Rng>> = const { RefCell::new(None) }; }
+
+/// Seeds (or, with `None`, unseeds) the entropy of the current thread.
+pub fn seed_entropy(seed: Option<u64>) {
+    ENTROPY.with(|e| *e.borrow_mut() = seed.map(ChaCha20Rng::seed_from_u64));
+}
+
+/// Runs `f` on the thread's entropy source.
+pub fn with_entropy<R>(f: impl FnOnce(&mut dyn RngCore) -> R) -> R {
+    ENTROPY.with(|e| match e.borrow_mut().as_mut() {
+        Some(rng) => f(rng),
+        None => f(&mut OsRng),
+    })
+}
